@@ -15,8 +15,8 @@ func init() {
 			"Oracle: a cursor model (declared, open, snapshot rows taken by a SELECT of the same query at OPEN time, pointer clamped to [-1,len], fetched flag); fetched values, status values, the rows visited by WHILE..IN and whether an operation is an error are compared after every operation. non-trivial = at least 3 in-range fetches were compared after the underlying table had changed; distinct = history digest.",
 		Quick: 3000, Thorough: 100000, FloorQuick: 600, FloorThorough: 20000,
 		Assumptions: []string{"the variables after an out-of-range FETCH are not judged (the manual says NULL, the property is silent)", "fetch offsets that are not integers are executed only to watch for internal failures"},
-		Setup: func(w *core.Worker) { core.HermeticProcess(w.Work) },
-		Fn:    c16Case,
+		Setup:       func(w *core.Worker) { core.HermeticProcess(w.Work) },
+		Fn:          c16Case,
 	})
 }
 
